@@ -153,11 +153,20 @@ def project_sig(res, variant, wform="blind", sform="pinned"):
     stage = {}            # worker -> conn (connected) updT (in _update_connect_state) updL (updated) body res
     polled = {}
     zlist, zcanc, fwds = [], None, []
+    zopen = [False]       # Z took thd_mutex for the signal it is handling and `obs list` was not sent yet
+
+    def flush_list():
+        # what the listing named is compared when the signals thread is done with the signal (before its next sigwait,
+        # its end, the end of the run) - not at the unlock: the lines may be printed from a snapshot after the unlock
+        if zopen[0]:
+            L.append("obs list " + (",".join(map(str, zlist)) or "-"))
+            zopen[0] = False
     evs = ordered(res)
     for pos, (kind, s, ev) in enumerate(evs):
         th = ev[0]
         if th == "Z" and len(ev) > 1 and ev[1] == "cancelled":
             # the deferred cancellation takes effect: the signals thread has come back to sigwait
+            flush_list()
             L.append("ev Z die")
             continue
         if th.startswith("W") and len(ev) > 1 and ev[1] in ("poll", "read"):
@@ -180,6 +189,8 @@ def project_sig(res, variant, wform="blind", sform="pinned"):
             if opts.get("pers") != "pcp":       # a copy (stub pcp_client) does not poll: the path is not observable
                 L.append("obs path %s %s" % (fe[0][1:], "reading" if polled.get(fe[0]) else "closing"))
             stage[fe[0]] = "res"
+        if fe[0] == "Z" and fe[1] == "sigwait":
+            flush_list()
         if kind == "E" and s is not None:
             L.append("st %s %s %s %s %s" % (s["tc"], keep_names(s["R"]), keep_names(s["P"]), keep_names(s["X"]),
                                             s.get("ts", "-")))
@@ -188,6 +199,7 @@ def project_sig(res, variant, wform="blind", sform="pinned"):
             # pthread_cancel is deferred.  The signals thread is in sigwait (a cancellation point): it ends at once.
             # Otherwise it is in the middle of a handler and runs on until it comes back to sigwait (`Z cancelled`);
             # the model has both (St.scan, SAct.die) and the whole tail is validated against it
+            flush_list()
             L.append("ev Z die")
         if fe[0].startswith("W"):
             st = stage.get(fe[0])
@@ -202,15 +214,15 @@ def project_sig(res, variant, wform="blind", sform="pinned"):
                 polled[fe[0]] = False
         elif fe[0] == "Z":
             if fe[1] == "lockT":
-                zlist = []
-            elif fe[1] == "unlockT":
-                L.append("obs list " + (",".join(map(str, zlist)) or "-"))
+                del zlist[:]
+                zopen[0] = True
             elif fe[1] == "lock":
                 zcanc = None
             elif fe[1] == "unlock":
                 L.append("obs canc %s" % ("?" if zcanc is None else zcanc))
             elif fe[1] == "fwd":
                 fwds.append(fe[2])
+    flush_list()
     L.append("obs fwds " + (",".join(fwds) or "-"))
     status = m.get("status", "crash")
     if status == "deadlock" and res.get("last_S"):
